@@ -364,7 +364,7 @@ def _cases_moves(run):
                          "(g, filter (fun r => negb (opt_eqb mv_eqb (fst r) (snd (snd r)))) "
                          "(map (fun mm => (transform_move_opt g (fst mm) n, mm)) l))",
                     shard=16)
-    full_upto = 5 if run.quick else 8
+    full_upto = 5 if run.quick else 6
     n_sample = 250 if run.quick else 3000
     n_ill = 120 if run.quick else 1000
     tot = nontrivial = 0
@@ -375,27 +375,23 @@ def _cases_moves(run):
         ms = list(table) if n <= full_upto else rng.sample(table, min(n_sample, len(table)))
         ms += illformed_moves(rng, n, n_ill, True)
         dist[f"size{n}"] = len(ms)
+        chunks = [ms[i:i + 150] for i in range(0, len(ms), 150)]
         for k, s in enumerate(S.SYMMETRIES):
-            items, chunk = [], []
-            for m in ms:
-                try:
-                    m2 = S.transform_move(s, m, n)
-                except KeyError:
-                    m2 = None
-                except Exception as e:  # noqa
-                    crashes.append((n, k, m, repr(e)))
-                    continue
-                items.append(f"({takio.c_move(m)}, {copt(None if m2 is None else takio.c_move(m2))})")
-                chunk.append(m)
-                tot += 1
-                nontrivial += int(m.type.is_slide() and k != 0)
-                if len(items) == 150:
-                    cs.add(f"({n}, {k}, {clist(items)})", {"kind": "transform_move", "size": n, "sym": k,
-                                                           "moves": [takio.j_move(x) for x in chunk]})
-                    items, chunk = [], []
-            if items:
-                cs.add(f"({n}, {k}, {clist(items)})", {"kind": "transform_move", "size": n, "sym": k,
-                                                       "moves": [takio.j_move(x) for x in chunk]})
+            for chunk in chunks:
+                items = []
+                for m in chunk:
+                    try:
+                        m2 = S.transform_move(s, m, n)
+                    except KeyError:
+                        m2 = None
+                    except Exception as e:  # noqa
+                        crashes.append((n, k, m, repr(e)))
+                        continue
+                    items.append(f"({takio.c_move(m)}, {copt(None if m2 is None else takio.c_move(m2))})")
+                    tot += 1
+                    nontrivial += int(m.type.is_slide() and k != 0)
+                # the chunk (shared by the 8 matrices) is turned into JSON only if the case fails
+                cs.add(f"({n}, {k}, {clist(items)})", {"kind": "transform_move", "size": n, "sym": k, "chunk": chunk})
     return cs, tot, nontrivial, dist, crashes
 
 
@@ -491,16 +487,18 @@ def correspondence(run):
     run.oblige(f"correspondence:transform_move ({nshards2} shards)", not shard_fail2 and not mcrashes,
                str(shard_fail2)[:1500] + str(mcrashes[:2]))
     run.count(tot, nontrivial // 7,
-              "8 x (whole move table of sizes 3-5 [thorough: 3-8] or a sample of it + ill-formed moves with off-board squares in "
+              "8 x (whole move table of sizes 3-5 [thorough: 3-6] or a sample of it + ill-formed moves with off-board squares in "
               "[-size-1, 2*size]): transform_move output (KeyError = None) compared with the model; non-trivial = distinct slide moves",
               [{"size": 5, "sym": 3, "move": {"x": 1, "y": 2, "type": "SLIDE_LEFT", "slides": [1]}}], mdist, label="transform_move")
     for (n, k, m, err) in mcrashes[:3]:
         run.violation(f"tm-crash-{n}-{k}", {"clause": "transform_move raised", "error": err,
                                             "input": {"kind": "move", "size": n, "sym": k, "moves": [takio.j_move(m)]}})
     for meta in failing2[:4]:
-        view = cm.model_view(cm.terms[cm.metas.index(meta)])
+        view = cm.model_view(cm.terms[[id(x) for x in cm.metas].index(id(meta))])
         # feed the disagreement to the oracle: play the moves of the case on a position of that size
         p = _playout(run.rng, meta["size"], False, 3 * meta["size"], True)
+        meta = dict(meta, moves=[takio.j_move(x) for x in meta["chunk"]])
+        del meta["chunk"]
         ms = [takio.mk_move(d) for d in meta["moves"] if not (d["type"].startswith("SLIDE") and d["slides"] is None)]
         ms += moves_for(run.rng, p, 40, 60, 0)
         verdict = oracle_position(p, ms)
